@@ -185,6 +185,40 @@ def constants(E):
     E.cover(kind)
 
 
+def kets_inside(E):
+    """state preparations and post-selections in the middle of a circuit,
+    to the left of wires that are used afterwards (numeric reference by
+    Kronecker products per layer)"""
+    from discopy.quantum import gates as G
+    from discopy.quantum.circuit import Id
+    sym.begin(E)
+    pool = [G.Ket(0, 0) @ Id(2) >> Id(3) @ G.X,
+            G.Ket(1) @ Id(2) >> Id(2) @ G.Y >> Id(1) @ G.CX,
+            Id(1) @ G.Ket(0, 1) @ Id(1) >> Id(3) @ G.H >> G.CX @ Id(2),
+            G.Ket(0, 1, 0) @ Id(1) >> Id(3) @ G.Rz(0.3) >> Id(2) @ G.CX,
+            Id(2) @ G.Ket(1) >> G.H @ Id(2) >> G.Bra(0) @ Id(2) >> G.CX,
+            G.Ket(0, 0) @ Id(2) >> Id(3) @ G.X >> G.Bra(0) @ Id(3)
+            >> Id(2) @ G.Rx(0.2)]
+    c = E.choice('circuit', pool)
+    M = np.eye(2 ** len(c.dom), dtype=complex)
+    scan = len(c.dom)
+    for box, off in zip(c.boxes, c.offsets):
+        B = np.asarray(box.array, dtype=complex).reshape(
+            2 ** len(box.dom), 2 ** len(box.cod))
+        L = np.kron(np.kron(np.eye(2 ** off), B),
+                    np.eye(2 ** (scan - off - len(box.dom))))
+        M = M @ L
+        scan += len(box.cod) - len(box.dom)
+    got = np.asarray(c.eval().array, dtype=complex).reshape(M.shape)
+    E.check(bool(np.allclose(got, M, atol=1e-9)),
+            "C11:circuit:kets-inside:not-ordered-product", info=str(c))
+    dag = np.asarray(c.dagger().eval().array, dtype=complex).reshape(
+        M.shape[1], M.shape[0])
+    E.check(bool(np.allclose(dag, M.conj().T, atol=1e-9)),
+            "C11:circuit:kets-inside:dagger", info=str(c))
+    E.cover("kets-inside")
+
+
 def circuits(E, n, m, named):
     """evaluation = ordered product of the embedded gates; dagger"""
     from discopy.quantum import gates as G
@@ -283,6 +317,10 @@ def harnesses(tier):
                        "H/CX" if named else "a generic symbolic 1- or 2-qubit "
                        "matrix"), outside="more qubits / layers",
                     timeout_s=T, solver_timeout_ms=120000))
+    hs.append(H("kets_inside", kets_inside, {}, FUNCS, covers=["kets-inside"],
+                engine="numeric (no symbols): DSE choice of 6 fixed circuits",
+                bounds="6 circuits with Ket/Bra in the middle, to the left of "
+                "wires used afterwards (up to 4 wires)", timeout_s=T))
     hs.append(H("rewires", rewires, dict(nmax=4 if q else 5), FUNCS,
                 covers=["refused", "adjacent", "distant"],
                 engine="SYM (z3 QF_NRA)",
